@@ -45,7 +45,7 @@ RTAtoms ==
   \cup {[dependentSchemas |-> m] : m \in {EmptyFcn, [a |-> FalseS]}}
   \cup {[depSchemas |-> m] : m \in {EmptyFcn, [a |-> FalseS]}}
   \cup {[depStrings |-> m] : m \in {EmptyFcn, [b |-> <<"a">>], [b |-> <<>>]}}
-  \cup {[const |-> c] : c \in {Null, Num(R_0), Str(""), Bool(FALSE), EmptyArr, EmptyObj}}
+  \cup {[const |-> c] : c \in {Null, Num(R_0), Str(""), Bool(FALSE), EmptyArr, EmptyObj, Num(R_2p63), Num(R_2p53)}}
   \cup {[default |-> c] : c \in {Null, Num(R_1), Obj([a |-> Null])}}
   \cup {(kw :> k) : kw \in {"minLength", "maxLength", "minItems", "maxItems", "minContains", "maxContains", "minProperties", "maxProperties"}, k \in {0, 2}}
   \cup {(kw :> r) : kw \in {"multipleOf", "minimum", "maximum", "exclusiveMinimum", "exclusiveMaximum"}, r \in {R_1, R_h}}
@@ -162,6 +162,12 @@ DKRemoteDecos == DKDecos \cup DKRaw
                        [contentSchema |-> [unevaluatedProperties |-> FalseS]], [defs |-> [unused |-> [properties |-> [zz |-> [unevaluatedItems |-> TrueS]]]]]}
 DKRemoteCases == {[base |-> DKRemoteRoot(EmptyFcn), s |-> DKRemoteRoot(d), raw |-> ("rawkeys" \in DOMAIN d), uri |-> DKChainURI, rem |-> <<DKItemDoc>>]
                     : d \in DKRemoteDecos \cup {EmptyFcn}}
+\* annotations with EQUAL values on sibling alternatives that fail for the same reason (whatever an error
+\* message is built from, the count of failed alternatives is the count of alternatives)
+DKTitled(deco) == [anyOf |-> <<StrS @@ deco, [type |-> "string", minLength |-> 3] @@ deco>>]
+DKTitledCases == {[base |-> DKTitled(EmptyFcn), s |-> DKTitled(d), raw |-> FALSE, uri |-> EmptyURI]
+                    : d \in {[title |-> "t"], [title |-> "t", description |-> "d"], [comment |-> "c"]}}
+                 \cup {[base |-> DKTitled(EmptyFcn), s |-> DKTitled(EmptyFcn), raw |-> FALSE, uri |-> EmptyURI]}
 DKOk(c) == c.s # c.base
 
 \* ------------------------------------------------------------ RD: documents (C05, other direction)
@@ -176,6 +182,9 @@ RDCases == {
   [doc |-> "{\"minLength\":2.0}", norm |-> "{\"minLength\":2}"],
   [doc |-> "{\"maxItems\":3.0,\"minItems\":0}", norm |-> "{\"maxItems\":3,\"minItems\":0}"],
   [doc |-> "{\"minimum\":1e2}", norm |-> "{\"minimum\":100}"],
+  [doc |-> "{\"const\":1e19}", norm |-> "{\"const\":10000000000000000000}"],
+  [doc |-> "{\"const\":18446744073709551616,\"enum\":[9223372036854775808,-1e25]}", norm |-> "{\"const\":18446744073709551616,\"enum\":[9223372036854775808,-1e25]}"],
+  [doc |-> "{\"properties\":{\"a\":{\"const\":1e30,\"default\":1e30,\"examples\":[1e30]}}}", norm |-> "{\"properties\":{\"a\":{\"const\":1e30,\"default\":1e30,\"examples\":[1e30]}}}"],
   [doc |-> "{\"maxLength\":10.0}", norm |-> "{\"maxLength\":10}"],
   [doc |-> "{\"minItems\":100.0,\"maxItems\":100.00}", norm |-> "{\"minItems\":100,\"maxItems\":100}"],
   [doc |-> "{\"properties\":{\"a\":{\"maxProperties\":20.00,\"minProperties\":0.0}}}", norm |-> "{\"properties\":{\"a\":{\"maxProperties\":20,\"minProperties\":0}}}"],
@@ -230,7 +239,7 @@ Cases == CASE Family = "PO" -> POCases
            [] Family = "DK" -> {c \in DKCases \cup DKChainCases : DKOk(c)}
                                \cup {[base |-> b, s |-> b, raw |-> FALSE, uri |-> EmptyURI] : b \in DKBases}
                                \cup {[base |-> DKChain(EmptyFcn), s |-> DKChain(EmptyFcn), raw |-> FALSE, uri |-> DKChainURI]}
-                               \cup DKVendorCases \cup DKRemoteCases
+                               \cup DKVendorCases \cup DKRemoteCases \cup DKTitledCases
 
 Init == cs \in Cases /\ phase = "new"
 Next == phase = "new" /\ phase' = "done" /\ cs' = cs
